@@ -1615,8 +1615,9 @@ vbi_export_mem			(vbi_export *		e,
 
 			/* Or was it? We may have started to write into
 			   @a buffer, so let's finish that in any case. */
-			memcpy (buffer, e->buffer.data,
-				MIN (e->buffer.offset, buffer_size));
+			if (buffer_size > 0) /* buffer can be NULL */
+				memcpy (buffer, e->buffer.data,
+					MIN (e->buffer.offset, buffer_size));
 
 			free (e->buffer.data);
 		}
